@@ -351,6 +351,21 @@ def m_or_else(ex, st, callee, args, dest_ty):
         yield from call_fn_value(ex, st2, f, [] if good == "Some" else [v.alts["Err"][0]])
 
 
+def m_map_err(ex, st, callee, args, dest_ty):
+    """Result::map_err: Ok passes through, the closure (real code) turns the error"""
+    v, f = args
+    if "Ok" in v.alts:
+        for st2 in ex.branch(st, v.disc == 0):
+            yield st2, En(v.ty, z3.IntVal(0), {"Ok": v.alts["Ok"]})
+    if "Err" in v.alts:
+        for st2 in ex.branch(st, v.disc != 0):
+            for o in call_fn_value(ex, st2, f, [v.alts["Err"][0]]):
+                if o.kind == "return":
+                    yield o.st, En(v.ty, z3.IntVal(1), {"Err": (o.value,)})
+                else:
+                    yield o
+
+
 def m_and_then(ex, st, callee, args, dest_ty):
     v, f = args
     good, goodidx, bad = ("Some", 1, "None") if ("Some" in v.alts or "None" in v.alts) else ("Ok", 0, "Err")
@@ -1087,6 +1102,7 @@ BASE_MODELS = [
     (R(r"^Option::<.*>::ok_or_else::<.*>$"), m_ok_or_else),
     (R(r"^(Option|Result)::<.*>::map::<.*>$"), m_opt_map),
     (R(r"^(Option|Result)::<.*>::map_or::<.*>$"), m_map_or),
+    (R(r"^Result::<.*>::map_err::<.*>$"), m_map_err),
     (R(r"^(Option|Result)::<.*>::or_else::<.*>$"), m_or_else),
     (R(r"^(Option|Result)::<.*>::and_then::<.*>$"), m_and_then),
     (R(r"^Option::<.*>::filter::<.*>$"), m_opt_filter),
